@@ -212,9 +212,17 @@ def rule_r2(facts, col, rule_id="C01.R2"):
             for x in walk(e):
                 # the dividend is the size parameter ITSELF (the length of one copy of the ring): a quantity merely derived
                 # from it - e.g. the length of the doubled mapping - admits element sizes that straddle the wrap point
-                if x.k == "bin" and x.op == "Rem" and peel(x.a, through_try=False).k == "param":
+                # ... and the divisor is the element SIZE: `size % align_of::<T>()` lets a 12-byte element with 4-byte alignment
+                # through, and the ring then wraps in the middle of an element
+                def _is_size(d):
+                    pd = peel(d, through_try=False)
+                    if pd.k == "call" and (pd.q or "").split("::")[-1] in ("align_of", "align_of_val", "min_align_of"):
+                        return False
+                    return True
+                if x.k == "bin" and x.op == "Rem" and peel(x.a, through_try=False).k == "param" and _is_size(x.b):
                     hit = True
-                if x.k == "call" and (x.q or "").endswith("is_multiple_of") and x.args and peel(x.args[0], through_try=False).k == "param":
+                if x.k == "call" and (x.q or "").endswith("is_multiple_of") and x.args and peel(x.args[0], through_try=False).k == "param" \
+                        and len(x.args) > 1 and _is_size(x.args[1]):
                     hit = True
             if not hit:
                 continue
